@@ -266,3 +266,20 @@ func VH_C12_IndentCooked() {
 	}
 	vReach("cooked/done")
 }
+
+// VH_C12_IndentPreproc: a preprocessor line with symbolic text after its continuation backslash
+// (blanks there must not change whether the next line is a continuation), followed by a second line.
+func VH_C12_IndentPreproc() {
+	var src []byte
+	src = append(src, "#define F(x) \\"...)
+	src = append(src, vhHoleOf(vParam("HOLE"), " \t\\x")...)
+	src = append(src, '\n')
+	src = append(src, vhHoleOf(1, " #{")...)
+	src = append(src, "g(x)\n"...)
+	if !vhClosed(src) {
+		vReach("preproc/not-closed")
+		return
+	}
+	vhCheckFormat(src)
+	vReach("preproc/done")
+}
